@@ -273,6 +273,12 @@ func (s *SUT) HookRelease(point string) error {
 	return err
 }
 
+// HookReleaseParked wakes the goroutines parked at the point now; the point stays armed.
+func (s *SUT) HookReleaseParked(point string) error {
+	_, err := s.Op(defTimeout, "hook_release_parked", "", map[string]interface{}{"point": point})
+	return err
+}
+
 func (s *SUT) HookReleaseAll() error {
 	_, err := s.Op(defTimeout, "hook_release_all", "", nil)
 	return err
